@@ -19,7 +19,6 @@ package expr
 import (
 	"fmt"
 	"runtime/debug"
-	"strconv"
 	"strings"
 
 	"github.com/antlr4-go/antlr/v4"
@@ -128,11 +127,7 @@ func (l *ParseTreeListener) parseInnerExpr(key string, ctx IInnerExprContext) {
 	}
 	switch {
 	case ctx.Value().STRING() != nil:
-		s, err := strconv.Unquote(ctx.Value().STRING().GetText())
-		if err != nil {
-			panic(err)
-		}
-		l.Result[fieldKey] = s
+		l.Result[fieldKey] = unquote(ctx.Value().STRING().GetText())
 	case ctx.Value().IDENT() != nil:
 		l.Result[fieldKey] = ctx.Value().IDENT().GetText()
 	case ctx.Value().INTEGER() != nil:
@@ -143,4 +138,39 @@ func (l *ParseTreeListener) parseInnerExpr(key string, ctx IInnerExprContext) {
 		l.parseExpr(fieldKey, ctx.Value().Expr())
 	default: // for linter
 	}
+}
+
+// unquote resolves a STRING token. The lexer has already validated it against
+// '"' ( ~["\\] | '\\' ["\\/bfnrt] )* '"', so it cannot fail. strconv.Unquote does
+// not fit: it rejects `\/` and raw line breaks, both of which the grammar admits.
+func unquote(s string) string {
+	s = s[1 : len(s)-1]
+	if !strings.Contains(s, `\`) {
+		return s
+	}
+	var b strings.Builder
+	b.Grow(len(s))
+	for i := 0; i < len(s); i++ {
+		c := s[i]
+		if c != '\\' || i+1 >= len(s) {
+			b.WriteByte(c)
+			continue
+		}
+		i++
+		switch s[i] {
+		case 'b':
+			b.WriteByte('\b')
+		case 'f':
+			b.WriteByte('\f')
+		case 'n':
+			b.WriteByte('\n')
+		case 'r':
+			b.WriteByte('\r')
+		case 't':
+			b.WriteByte('\t')
+		default: // '"', '\\', '/'
+			b.WriteByte(s[i])
+		}
+	}
+	return b.String()
 }
